@@ -72,6 +72,7 @@ def correlated_reach(fn, start, targets, avoid, key_of):
 def run(ctx):
     F = ctx.load(CRATES)
     _struct_ctor_order(ctx, F)
+    _const_call_gate(ctx, F)
     exc = load_table()
     used = set()
     SEM = "cairo_lang_semantic::items::constant::"
@@ -496,3 +497,83 @@ def _struct_ctor_order(ctx, F):
                    "unlike at run time", c.where())
     ctx.floor("functions that order the members of a struct constructor", n_fn, 2)
     ctx.floor("sequences driven by the declared member order", n_decl, 2)
+
+
+def _const_call_gate(ctx, F):
+    """R7.9: which functions may be called in a constant.
+
+    A call in a const context is evaluated by the compiler's own model of the callee (arithmetic, comparisons, a handful of
+    traits evaluated structurally), never by the callee's body unless it is a `const fn`.  So the gate `is_function_const`
+    may say yes only for: the panic function, a function whose signature is `const`, or a function of an impl that lives in
+    the core crate and implements one of the registered const traits.  Every `true` the gate returns must stand on one of
+    these three tests; a user impl that is let through is evaluated by a model that is not its body."""
+    fs = [f for f in F.find("cairo_lang_semantic::items::constant::ConstantEvaluateContext", name="is_function_const") if f.body]
+    if len(fs) != 1:
+        raise AnchorError("is_function_const resolves to %d functions" % len(fs))
+    f = fs[0]
+    ctx.analysed(f)
+    from .lib import rvalue_operands
+    const_closures = [g for g in F.closures_of(f) if g.body and "f:is_const" in prov(g, 0, 8)]
+    tests = []          # (switch bb, successor taken when the two sides are EQUAL / the flag is true, tokens)
+    for bb, t in f.switches():
+        info, flip = bool_condition(f, bb)
+        if not info or info[0] != "call" or info[1].name() not in ("eq", "ne"):
+            continue
+        c = info[1]
+        toks = set()
+        for a in c.args:
+            toks |= op_prov(f, a, 12)
+        for s_ in f.succ(bb):
+            v = bool_edge_value(f, bb, s_)
+            if v is None:
+                continue
+            holds = (v ^ flip)                       # the call returned true on this edge
+            equal = holds if c.name() == "eq" else (not holds)
+            if equal:
+                tests.append((bb, s_, toks))
+
+    def reasons(block):
+        out = set()
+        for bb, s_, toks in tests:
+            if f.dominates(s_, block) and s_ != bb:
+                if "f:panic_with_felt252" in toks:
+                    out.add("the panic function")
+                if "f:is_const" in toks or ("c:map" in toks and const_closures):
+                    out.add("a const signature")
+                if "c:owning_crate" in toks and "c:core_crate" in toks:
+                    out.add("an impl of the core crate")
+        return out
+    n = 0
+    for i, j, st in f.stmts():
+        if st[0] != "a" or place_local(st[1]) != 0 or not isinstance(st[1], int):
+            continue
+        rv = st[2]
+        k = op_const(rv[1]) if rv[0] == "use" else None
+        if k and k[0] == "int" and k[1] == 0:
+            continue
+        n += 1
+        why = reasons(i)
+        if k and k[0] == "int":
+            ok = bool(why & {"the panic function", "a const signature"})
+            msg = "a constant `true` stands on %s" % sorted(why) if ok else \
+                "the gate returns `true` on a path that passed neither the panic-function test nor the const-signature test (reasons on the path: %s)" % sorted(why)
+        else:
+            toks = set()
+            for o in rvalue_operands(rv):
+                toks |= op_prov(f, o, 10)
+            ok = "an impl of the core crate" in why and "f:const_traits" in toks
+            msg = "a computed answer is the const-trait lookup of an impl of the core crate" if ok else \
+                "a computed answer is returned outside the core-crate test or is not the const-trait lookup (%s)" % sorted(why)
+        ctx.ob("R7.9", "is_function_const:yes#%d" % n, ok, msg, f.where(st[3] if len(st) > 3 else None))
+    for c in f.calls():
+        if place_local(c.dest) == 0 and isinstance(c.dest, int):
+            n += 1
+            why = reasons(c.bb)
+            toks = set()
+            for a in c.args:
+                toks |= op_prov(f, a, 10)
+            ok = "an impl of the core crate" in why and "f:const_traits" in toks and c.name() == "contains"
+            ctx.ob("R7.9", "is_function_const:yes#%d" % n, ok,
+                   "the answer is the const-trait lookup of an impl of the core crate" if ok else
+                   "the answer `%s(..)` is returned outside the core-crate test or is not the const-trait lookup (%s)" % (c.name(), sorted(why)), c.where())
+    ctx.floor("ways is_function_const says yes", n, 3)
